@@ -31,11 +31,12 @@ out = ['## 10. Detection: which checks catch which deliberately broken trees', '
        '### Seeded changes (independent)', '',
        '| id | property | what the change needs to manifest | caught by | note |', '|---|---|---|---|---|']
 UNCAUGHT = {
+    'C03-d1': 'not caught by C03 itself',
     'C05-c2': 'caught by C04 (exit 1, segment-sum): a zero-length antimeridian segment is counted twice; C05 does not judge the shares of a zero-length segment (0/0 is undefined), so this is a conservation violation, not an attribution one',
     'C05-b3': 'adjudicated: not a violation of the property as written (a point exactly on a grid line lies in the closure of both neighbouring cells; either is accepted, section 5). `VERIF_C05_TOUCH=lower` pins the documented convention and then reports it.',
     'C10-a1': 'patch written against an earlier /repo HEAD no longer applies after later fix commits; it was caught (exit 1) at the HEAD it was written for (see meta.json)',
 }
-n_seed = n_caught = 0
+n_seed = n_caught = n_own = 0
 for d in sorted((ROOT / 'seeded').glob('*')):
     mf = d / 'meta.json'
     if not mf.exists():
@@ -44,12 +45,13 @@ for d in sorted((ROOT / 'seeded').glob('*')):
     n_seed += 1
     caught = m.get('caught_by', [])
     n_caught += bool(caught)
+    n_own += m['property'] in caught
     needs = needs_text(d, m)
     note = notes.get(d.name, '')
     if not caught and not note:
         note = UNCAUGHT.get(d.name, '')
     out.append(f"| {d.name}{' †' if d.name in notes else ''} | {m['property']} | {needs} | {', '.join(caught) if caught else '**not caught**'} | {note} |")
-out += ['', f'{n_caught} of {n_seed} confirmed seeded changes are caught by the quick tier of the check of their own property.', '',
+out += ['', f'{n_caught} of {n_seed} confirmed seeded changes are caught by the quick tier ({n_own} by the check of the property they were written against, the others by the check of the property they actually violate - see the note column); the remaining ones are adjudicated in the note column.', '',
         '### Builder-written mutants', '', '| patch | property | exit | violation kinds (first three) |', '|---|---|---|---|']
 nm = nc = 0
 for k, v in sorted(res.items()):
